@@ -191,6 +191,13 @@ Definition calculate_add (v : var) (n : Z) (h : holder) (P : period) : res arr :
     let* T := subperiods P (v_def v) in
     Ok (sum_tiles v n h T).
 
+(** Simulation.calculate of an input variable (no formula) for every definition-period piece of
+    [P], one after the other: a known value is returned as it is; for an unknown one the default
+    0 is returned and stored (Holder.put_in_cache -> _set). *)
+Definition calculate_each (v : var) (n : Z) (h : holder) (P : period) : res holder :=
+  let* T := subperiods P (v_def v) in
+  dispatch_tiles v n h T (zeros n).
+
 (** * Vocabulary of the statements in props/C16.v (definitions only) *)
 
 (** value of entity [i] in an array (0 outside) *)
